@@ -62,3 +62,8 @@ Definition escape (s : list byte) : list byte := flat_map escape_byte s.
 
 (** bytes that can occur in the output of [escape] *)
 Definition esc_char (b : byte) : bool := unreserved b || Byte.eqb b pct.
+
+(** a second encoder, for the generality of the theorems: every byte as %xx with lower-case hex *)
+Definition hex_digit_lower (n : N) : byte := byte_of (if n <? 10 then 48 + n else 87 + n).
+Definition escape_all_byte (b : byte) : list byte := [pct; hex_digit_lower (bN b / 16); hex_digit_lower (bN b mod 16)].
+Definition escape_all (s : list byte) : list byte := flat_map escape_all_byte s.
